@@ -7,6 +7,10 @@ import (
 
 var ErrPacketNotComplete = errors.New("packet not completed")
 
+// ErrInvalidPacketLength means the total-length prefix is smaller than the prefix itself;
+// the stream cannot be framed any more and the connection should be closed.
+var ErrInvalidPacketLength = errors.New("invalid packet length prefix")
+
 // Codec handles TCP sticky packet problem
 type Codec interface {
 	// Decode tries to read a complete packet from the tcp connection without blocking
